@@ -111,6 +111,7 @@ static size_t derTDec(u32* tag, const octet der[], size_t count)
 {
 	u32 t;
 	size_t t_count = 1;
+	bool_t found = FALSE;
 	// обработать длину кода
 	if (count < 1)
 		return SIZE_MAX;
@@ -127,11 +128,14 @@ static size_t derTDec(u32* tag, const octet der[], size_t count)
 			t <<= 8, t |= der[t_count] & 127;
 			// завершающий октет?
 			if ((der[t_count++] & 128) == 0)
+			{
+				found = TRUE;
 				break;
+			}
 		}
 		// завершающий октет не найден?
 		// можно было обойтись коротким кодом?
-		if (t_count == count || t < 31)
+		if (!found || t < 31)
 			return SIZE_MAX;
 	}
 	// возврат 
